@@ -213,7 +213,8 @@ def _compute_fixed_point_ig(T, v, max_iter, verbose, print_skip, is_approx_fp,
     # Length of the arrays to store the computed sequences of x and y.
     # If exceeded, reset to min(max_iter, buff_size*2).
     buff_size = 2**8
-    buff_size = min(max_iter, buff_size)
+    # int(): a narrow NumPy integer would overflow in buff_size*2+1
+    buff_size = min(int(max_iter), buff_size)
 
     shape = (buff_size,) + np.asarray(x_new).shape
     X, Y = np.empty(shape), np.empty(shape)
@@ -241,7 +242,7 @@ def _compute_fixed_point_ig(T, v, max_iter, verbose, print_skip, is_approx_fp,
             X[iterate-1] = x_new
             Y[iterate-1] = y_new
         except IndexError:
-            buff_size = min(max_iter, buff_size*2)
+            buff_size = min(int(max_iter), buff_size*2)
             shape = (buff_size,) + X.shape[1:]
             X_tmp, Y_tmp = X, Y
             X, Y = np.empty(shape), np.empty(shape)
